@@ -618,6 +618,15 @@ func (u *Unit) callByContract(st *State, fr *Frame, in *ssa.Call, fn *ssa.Functi
 		case ElemPtr:
 			u.unsupported("contract call modifying a region element")
 			return nil, false
+		case SliceV:
+			if p.R != nil {
+				if !u.writable(p.R) && u.specMode == 0 {
+					if !u.require(st, fr, Eq(p.Len, IntK(0)), "frame", in) {
+						return nil, true
+					}
+				}
+				u.havocRegion(st, p.R)
+			}
 		}
 	}
 	var ret Value
